@@ -129,6 +129,17 @@ def gen(r, tier):
                 ops.append("t")
         r.shuffle(ops)
         cases.append(("fragframe", "frag_seq frame %s %s" % (r.choice("lz"), ",".join(ops)), dict(op="frag_seq")))
+    # 7. every boundary of the 4-byte fragment header (id, total, seq): as the first fragment of its id, and against an
+    #    entry that already exists for that id (with the same and with a different total)
+    edge = [0, 1, 2, 3, 63, 64, 65, 126, 127, 128, 129, 254, 255]
+    for total in edge:
+        for seq in sorted(set([0, 1, total - 1, total, total + 1, 126, 127, 128, 255]) & set(range(256))):
+            for body in (b"", b"x", rpfm_msg(7, ("v4", b"\x01\x02\x03\x04", 1), b"xy")):
+                h = bytes([0, 9, total, seq]) + body
+                cases.append(("fraghdr", "frag_seq frame l r%s" % hx(h), dict(op="frag_seq")))
+                for t0 in (2, 3, 127):
+                    first = bytes([0, 9, t0, 0]) + b"ab"
+                    cases.append(("fraghdr", "frag_seq frame l r%s,r%s,r%s" % (hx(first), hx(h), hx(bytes([0, 9, t0, 1]) + b"cd")), dict(op="frag_seq")))
     return cases
 
 
@@ -179,7 +190,7 @@ def run(tier, seed, replay=None):
         fd = fd_exhaustion(rep, driver)
     rep.coverage.update({
         "evaluations": len(cases) + (fd or 0), "distinct_nontrivial": len(set(l for _, _, l in classes)),
-        "rule": "random byte strings, protocol-shaped prefixes with every hostile length/type byte, mutated valid messages (flip, truncate, insert, delete, extend) under random segmentation, hostile HTTP status/header lines incl. Session-Id values and 64 KiB boundary lines, hostile upstream replies to the SOCKS5 connector, garbage fragments through reassembly + Frame::from_buffer; every case is non-trivial (distinct hostile input); classes counted by (decoder, outcome)",
+        "rule": "random byte strings, protocol-shaped prefixes with every hostile length/type byte, mutated valid messages (flip, truncate, insert, delete, extend) under random segmentation, hostile HTTP status/header lines incl. Session-Id values and 64 KiB boundary lines, hostile upstream replies to the SOCKS5 connector, garbage fragments through reassembly + Frame::from_buffer, every boundary value of the fragment header (total x seq x first-of-its-id / existing entry with the same or another total); every case is non-trivial (distinct hostile input); classes counted by (decoder, outcome)",
         "input_distribution": dist, "outcome_classes": len(set((a, b) for a, b, _ in classes)),
         "model_impl_disagreements": n_diff,
         "panic_sites_audited": len(open(os.path.join(COQ, "theories", "Gen", "Gen_panics.v")).read().split('";')),
